@@ -293,8 +293,24 @@ func checkPair(c *core.Ctx, idx int64, p *pair) {
 		c.Count("placement:several-distinct-marks")
 	}
 
+	// what the marked inputs look like before anything is called (clause 6)
+	pre := make([]string, len(p.marked))
+	if len(all) > 0 {
+		for k, v := range p.marked {
+			pre[k] = markedText(v)
+		}
+	}
 	o0 := run(c, p.call, p.unmarked)
 	o1 := run(c, p.call, p.marked)
+	if len(all) > 0 {
+		for k := range p.marked {
+			if now := markedText(p.marked[k]); now != pre[k] {
+				c.Violate(p.site, "an input value carries other marks after the call", "input value", desc(),
+					fmt.Sprintf("input %d was %s, after the call it is %s", k, pre[k], now))
+				return
+			}
+		}
+	}
 	nontrivial := len(all) > 0 && o0.ok
 	c.Distinct(desc(), nontrivial)
 	if nontrivial {
@@ -442,10 +458,6 @@ func checkPair(c *core.Ctx, idx int64, p *pair) {
 	// second result carries the marks the first one carried.
 	if len(all) > 0 {
 		c.Count("clause:inputs-untouched-and-repeatable")
-		pre := make([]string, len(p.marked))
-		for k, v := range p.marked {
-			pre[k] = markedText(v)
-		}
 		shared := append([]cty.Value(nil), p.marked...)
 		a := runShared(c, p.call, shared)
 		for k := range shared {
